@@ -2609,3 +2609,71 @@ func definedByShortDecl(info *types.Info, o types.Object) bool {
 	}
 	return false
 }
+
+// ---- C06.R21 Path.Get walks the members of a struct, not its unexported fields ----
+
+// The Get methods of the path nodes walk a Go value by reflection. reflect hands out the value of an unexported field
+// only for looking: storing it (reflect.Value.Set in AssignValue, Interface in the casts) panics. An unexported or
+// "-" field is no member of the document either. Obligation: every loop of a Get method in path.go that visits
+// src.Field(i) for i below NumField leaves the field alone (continue) when runtime.IsIgnoredStructField says so, in
+// front of every use of src.Field(i).
+func c06r21(rc *core.RC) {
+	p := rc.P
+	n := 0
+	for _, fd := range p.Funcs("decoder") {
+		if fd.Body == nil || fd.Name.Name != "Get" || fd.Recv == nil || p.FileBase(fd.Pos()) != "path.go" {
+			continue
+		}
+		info := p.Info(fd)
+		k := 0
+		ast.Inspect(fd.Body, func(m ast.Node) bool {
+			loop, ok := m.(*ast.ForStmt)
+			if !ok || loop.Cond == nil || !strings.Contains(core.Src(p.Fset, loop.Cond), "NumField()") {
+				return true
+			}
+			var firstUse ast.Node
+			ast.Inspect(loop.Body, func(q ast.Node) bool {
+				if c, isCall := q.(*ast.CallExpr); isCall && core.CalleeName(info, c) == "reflect.Value.Field" && firstUse == nil {
+					firstUse = c
+				}
+				return true
+			})
+			if firstUse == nil {
+				return true
+			}
+			n++
+			k++
+			rc.Touch(p.FuncName(fd))
+			key := fmt.Sprintf("%s/field-walk#%d skips-what-is-no-member", p.FuncName(fd), k)
+			guarded := false
+			for _, st := range loop.Body.List {
+				if st.Pos() >= firstUse.Pos() {
+					break
+				}
+				ifs, isIf := st.(*ast.IfStmt)
+				if !isIf || len(ifs.Body.List) == 0 {
+					continue
+				}
+				if br, isBr := ifs.Body.List[len(ifs.Body.List)-1].(*ast.BranchStmt); !isBr || br.Tok != token.CONTINUE {
+					continue
+				}
+				ast.Inspect(ifs.Cond, func(q ast.Node) bool {
+					if c, isCall := q.(*ast.CallExpr); isCall {
+						if cn := core.CalleeName(info, c); cn == "runtime.IsIgnoredStructField" || cn == "reflect.StructField.IsExported" {
+							guarded = true
+						}
+					}
+					if sel, isSel := q.(*ast.SelectorExpr); isSel && sel.Sel.Name == "PkgPath" {
+						guarded = true
+					}
+					return true
+				})
+			}
+			rc.Check(guarded, key, loop.Pos(), "the walk over the fields of a struct leaves unexported and ignored fields alone before it reads src.Field(i): handed on, the value of an unexported field makes reflect's Set or Interface panic (Path.Get with $.a over struct{ a string })")
+			return true
+		})
+	}
+	if n < 2 {
+		rc.Unknown("decoder/path.go/field-walks", token.NoPos, "found %d walks over struct fields in the Get methods of path.go, fewer than the 2 confirmed by hand", n)
+	}
+}
